@@ -71,7 +71,7 @@ func writeEvidence(id, tier string, seed int, cd *CheckDef, w *gosym.World, tota
 		knownIDs = append(knownIDs, k.Harness+"/"+k.Name)
 	}
 	cov := map[string]interface{}{
-		"explanation": cd.Explanation + " Deciding step: every obligation (vs.Assert) reached on every feasible path of the symbolically executed real SSA is sent negated to z3; unsat = holds for all inputs within the bound, sat = counterexample that is re-executed concretely (engine and native go test) before being reported.",
+		"explanation":                   cd.Explanation + " Deciding step: every obligation (vs.Assert) reached on every feasible path of the symbolically executed real SSA is sent negated to z3; unsat = holds for all inputs within the bound, sat = counterexample that is re-executed concretely (engine and native go test) before being reported.",
 		"evaluations":                   total.Paths,
 		"distinct_nontrivial":           nontriv,
 		"rule":                          "a case is one (feasible path of the real code under a harness, obligation) pair; paths are distinct decision trails of the go/ssa symbolic executor; non-trivial = the obligation did not constant-fold and was discharged by a solver query over all inputs of that path",
